@@ -1,4 +1,5 @@
 import Svgbob.Proofs.Determinism
+import Svgbob.Proofs.SourceConstants
 /-!
 # C07 — conversion is deterministic and stateless
 
@@ -34,6 +35,12 @@ theorem insert_commutes (len : List Char → Nat) (c1 c2 : Cell) (f1 f2 : List F
 earlier calls) -/
 theorem cell_fragments_functional (len : List Char → Nat) (s : Span) (c : Cell) (ch : Char) :
     ∃ fs, cellFragments len s c ch = fs := ⟨_, rfl⟩
+
+/-- the order in which the fragments of one cell are kept (and hence emitted) breaks ties between
+kinds by `Fragment::rank`; the model's ranks are the source's, kind by kind -/
+theorem fragment_ranks_are_the_sources (f : Frag) :
+    Gen.fragmentRank.lookup f.sourceKind = some f.rank ∧ Gen.fragmentRank.length = 8 :=
+  fragment_ranks_match_source f
 
 /-! Non-vacuity / test (labelled as test): a reversed visiting order gives the same buffer for a
 concrete span (also evaluated by the driver on generated inputs). -/
